@@ -239,6 +239,7 @@ def showErr : Err → String
   | .attribute => "err:AttributeError"
   | .index => "err:IndexError"
   | .key => "err:KeyError"
+  | .name => "err:NameError"
   | .unsupported => "err:unsupported"
 
 /-- entries sorted by name -/
